@@ -891,6 +891,11 @@ func (x *Exec) defineSpec(sf *SpecFunc) string {
 		x.W.defSeen[name] = true // allow self reference
 		body := x.coerce(sc.Eval(sf.Body), ret.sort)
 		x.W.defs = append(x.W.defs, fmt.Sprintf("(define-fun-rec %s (%s) %s %s)", name, strings.Join(formals, " "), ret.sort, body.S))
+		defer func() {
+			x.noFacts--
+			x.zeroMaskFacts()
+			x.noFacts++
+		}()
 		if sf.Prefix && len(sf.Params) == 2 {
 			// stability facts for updates that happened before this fold was first mentioned
 			so := x.resolveTypeName(sf.Params[0].Type, sf.Pkg).sort
@@ -903,6 +908,11 @@ func (x *Exec) defineSpec(sf *SpecFunc) string {
 				for _, pp := range x.W.pendingSum {
 					if pp[0].Sort == so {
 						x.emitSumUpdate(name, pp[0], pp[1], pp[2])
+					}
+				}
+				for _, pp := range x.W.pendingCat {
+					if pp[0].Sort == so {
+						x.emitCatSum(name, pp[0], pp[1], pp[2])
 					}
 				}
 				for _, pp := range x.W.pendingPerm {
@@ -1311,6 +1321,7 @@ func (x *Exec) sumUpdateFacts(newSeq, oldSeq, i Term) {
 		return
 	}
 	x.W.pendingSum = append(x.W.pendingSum, [3]Term{newSeq, oldSeq, i})
+	x.maskUpdateFacts(newSeq, oldSeq, i)
 	for _, sf := range x.P.Contracts.Specs {
 		if !isSumShape(sf) || !x.W.defSeen["spec_"+sf.Name] {
 			continue
@@ -1320,6 +1331,196 @@ func (x *Exec) sumUpdateFacts(newSeq, oldSeq, i Term) {
 			continue
 		}
 		x.emitSumUpdate("spec_"+sf.Name, newSeq, oldSeq, i)
+	}
+}
+
+// catSumFacts: c = a ++ b.  Every sum-shaped prefix fold F (F(s,n) = F(s,n-1) + g(s[n-1])) distributes over the
+// concatenation: F(c,n) = F(a,n) for n <= len(a), and F(c, len(a)+n) = F(a, len(a)) + F(b, n) for n <= len(b)
+// (induction on n; the fold's shape is checked syntactically by isSumShape).
+func (x *Exec) catSumFacts(c, a, b Term) {
+	if x.termMode || x.noFacts > 0 || x.unroll > 0 || a.Sort != b.Sort || a.Sort != c.Sort {
+		return
+	}
+	x.W.pendingCat = append(x.W.pendingCat, [3]Term{c, a, b})
+	for _, sf := range x.P.Contracts.Specs {
+		if !isSumShape(sf) || !x.W.defSeen["spec_"+sf.Name] {
+			continue
+		}
+		if so := x.resolveTypeNameSafe(sf.Params[0].Type, sf.Pkg); so != c.Sort {
+			continue
+		}
+		x.emitCatSum("spec_"+sf.Name, c, a, b)
+	}
+}
+
+func (x *Exec) emitCatSum(name string, c, a, b Term) {
+	la, lb := x.W.SeqLen(a), x.W.SeqLen(b)
+	x.W.nfresh++
+	q := fmt.Sprintf("n!q%d", x.W.nfresh)
+	f := func(s Term, n string) string { return fmt.Sprintf("(%s %s %s)", name, s.S, n) }
+	x.W.Facts = append(x.W.Facts, fmt.Sprintf("(forall ((%s Int)) (! (=> (and (<= 0 %s) (<= %s %s)) (= %s %s)) :pattern (%s)))",
+		q, q, q, la.S, f(c, q), f(a, q), f(c, q)))
+	x.W.Facts = append(x.W.Facts, fmt.Sprintf("(forall ((%s Int)) (! (=> (and (<= 0 %s) (<= %s %s)) (= %s (+ %s %s))) :pattern (%s)))",
+		q, q, q, lb.S, f(c, "(+ "+la.S+" "+q+")"), f(a, la.S), f(b, q), f(b, q)))
+	x.W.Facts = append(x.W.Facts, fmt.Sprintf("(= %s (+ %s %s))", f(c, "(+ "+la.S+" "+lb.S+")"), f(a, la.S), f(b, lb.S)))
+	x.W.Facts = append(x.W.Facts, fmt.Sprintf("(= %s (+ %s %s))", f(c, x.W.SeqLen(c).S), f(a, la.S), f(b, lb.S)))
+}
+
+// isMaskSumShape: F(a, u, n) = n <= 0 ? 0 : F(a, u, n-1) + g(a[n-1], u[n-1]) - a sum over two parallel sequences
+// (e.g. "weight of the blocks not yet used").  Both sequences are only indexed at n-1.
+func isMaskSumShape(sf *SpecFunc) bool {
+	if !sf.Rec || sf.Prefix || len(sf.Params) != 3 {
+		return false
+	}
+	a, u, n := sf.Params[0].Name, sf.Params[1].Name, sf.Params[2].Name
+	c, ok := sf.Body.(ECond)
+	if !ok {
+		return false
+	}
+	if z, ok := c.A.(ELit); !ok || z.Val != "0" {
+		return false
+	}
+	b, ok := c.B.(EBin)
+	if !ok || b.Op != "+" {
+		return false
+	}
+	isNminus1 := func(e Expr) bool {
+		bb, ok := e.(EBin)
+		if !ok || bb.Op != "-" {
+			return false
+		}
+		l, lok := bb.L.(EIdent)
+		r, rok := bb.R.(ELit)
+		return lok && rok && l.Name == n && r.Val == "1"
+	}
+	call, ok := b.L.(ECall)
+	if !ok || len(call.Args) != 3 {
+		return false
+	}
+	if id, ok := call.Fun.(EIdent); !ok || id.Name != sf.Name {
+		return false
+	}
+	if a0, ok := call.Args[0].(EIdent); !ok || a0.Name != a {
+		return false
+	}
+	if a1, ok := call.Args[1].(EIdent); !ok || a1.Name != u {
+		return false
+	}
+	if !isNminus1(call.Args[2]) {
+		return false
+	}
+	good := true
+	var walk func(e Expr)
+	walk = func(e Expr) {
+		switch v := e.(type) {
+		case EIdent:
+			if v.Name == a || v.Name == u {
+				good = false
+			}
+		case EIndex:
+			if id, ok := v.X.(EIdent); ok && (id.Name == a || id.Name == u) {
+				if !isNminus1(v.I) {
+					good = false
+				}
+				return
+			}
+			walk(v.X)
+			walk(v.I)
+		case ECall:
+			if id, ok := v.Fun.(EIdent); ok && id.Name == sf.Name {
+				good = false
+				return
+			}
+			for _, x := range v.Args {
+				walk(x)
+			}
+		case EBin:
+			walk(v.L)
+			walk(v.R)
+		case EUn:
+			walk(v.X)
+		case ECond:
+			walk(v.C)
+			walk(v.A)
+			walk(v.B)
+		case ESel:
+			walk(v.X)
+		case EQuant, ELet, EOld, EEntry, EPrev, ESlice:
+			good = false
+		}
+	}
+	walk(b.R)
+	return good
+}
+
+// zeroMaskFacts: fold induction.  For an all-false mask z, a mask sum F(a, z, n) and a plain sum S(a, n) over the
+// same element sort: IF their summands agree at every index (stated through the folds' own increments, which the
+// solver must establish by unfolding the two definitions) THEN the folds agree for every n.  Both folds are 0 at
+// n <= 0, so this is an instance of induction on n.
+func (x *Exec) zeroMaskFacts() {
+	if x.termMode || x.noFacts > 0 || x.unroll > 0 || len(x.W.pendingZeroMask) == 0 {
+		return
+	}
+	if x.W.zeroMaskDone == nil {
+		x.W.zeroMaskDone = map[string]bool{}
+	}
+	for _, mf := range x.P.Contracts.Specs {
+		if !isMaskSumShape(mf) || !x.W.defSeen["spec_"+mf.Name] {
+			continue
+		}
+		aso := x.resolveTypeNameSafe(mf.Params[0].Type, mf.Pkg)
+		uso := x.resolveTypeNameSafe(mf.Params[1].Type, mf.Pkg)
+		for _, sf := range x.P.Contracts.Specs {
+			if !isSumShape(sf) || !x.W.defSeen["spec_"+sf.Name] {
+				continue
+			}
+			if x.resolveTypeNameSafe(sf.Params[0].Type, sf.Pkg) != aso || aso == "" {
+				continue
+			}
+			for _, z := range x.W.pendingZeroMask {
+				if z.Sort != uso {
+					continue
+				}
+				key := mf.Name + "/" + sf.Name + "/" + z.S
+				if x.W.zeroMaskDone[key] {
+					continue
+				}
+				x.W.zeroMaskDone[key] = true
+				F, S := "spec_"+mf.Name, "spec_"+sf.Name
+				x.W.Facts = append(x.W.Facts, fmt.Sprintf(
+					"(=> (forall ((a!i %s) (k!i Int)) (=> (>= k!i 0) (= (- (%s a!i (+ k!i 1)) (%s a!i k!i)) (- (%s a!i %s (+ k!i 1)) (%s a!i %s k!i))))) (forall ((a!j %s) (n!j Int)) (! (= (%s a!j n!j) (%s a!j %s n!j)) :pattern ((%s a!j %s n!j)))))",
+					aso, S, S, F, z.S, F, z.S, aso, S, F, z.S, F, z.S))
+			}
+		}
+	}
+}
+
+// maskUpdateFacts: u' = u[i := v].  For every mask sum F(a, u, n) and every a: prefixes up to i agree, and beyond i
+// the totals differ by the change of the i-th summand.
+func (x *Exec) maskUpdateFacts(newSeq, oldSeq, i Term) {
+	if x.termMode || x.noFacts > 0 || x.unroll > 0 {
+		return
+	}
+	for _, sf := range x.P.Contracts.Specs {
+		if !isMaskSumShape(sf) || !x.W.defSeen["spec_"+sf.Name] {
+			continue
+		}
+		if so := x.resolveTypeNameSafe(sf.Params[1].Type, sf.Pkg); so != newSeq.Sort {
+			continue
+		}
+		aso := x.resolveTypeNameSafe(sf.Params[0].Type, sf.Pkg)
+		if aso == "" {
+			continue
+		}
+		name := "spec_" + sf.Name
+		x.W.nfresh++
+		qa := fmt.Sprintf("a!q%d", x.W.nfresh)
+		qn := fmt.Sprintf("n!q%d", x.W.nfresh)
+		f := func(u Term, n string) string { return fmt.Sprintf("(%s %s %s %s)", name, qa, u.S, n) }
+		ip1 := "(+ " + i.S + " 1)"
+		delta := fmt.Sprintf("(- (- %s %s) (- %s %s))", f(newSeq, ip1), f(newSeq, i.S), f(oldSeq, ip1), f(oldSeq, i.S))
+		x.W.Facts = append(x.W.Facts, fmt.Sprintf("(forall ((%s %s) (%s Int)) (! (= %s (ite (> %s %s) (+ %s %s) %s)) :pattern (%s)))",
+			qa, aso, qn, f(newSeq, qn), qn, i.S, f(oldSeq, qn), delta, f(oldSeq, qn), f(newSeq, qn)))
 	}
 }
 
